@@ -41,8 +41,7 @@ def _guarded_by_absence(prog, body, bb, callee):
     return False
 
 
-def noclobber(ctx, report, facts, config):
-    rule = "C13.NOCLOBBER"
+def noclobber(ctx, report, facts, config, rule="C13.NOCLOBBER"):
     prog = ctx.program(facts)
     roots = []
     roots += facts.find(name="setup", trait=A.T_SYSDATA)
